@@ -14,7 +14,8 @@ PROPERTY = "C11"
 RULE = ("(i) exhaustive block-occupancy vectors: populations in {0..4} per block for 2..5 blocks in a row (thorough: up to 6 blocks and 2-row "
         "layouts), every n_splits from 2 to the number of occupied blocks (+1 to test rejection), shuffle x balance x seeds, points placed inside "
         "their blocks by construction; (ii) generated layouts with populations 0..30, shapes/spacings, BlockShuffleSplit test/train sizes as floats "
-        "and ints, balancing 1..10, seeds; non-trivial = uneven populations (max >= 2*min over occupied blocks) or an empty block, or a demanded "
+        "and ints, balancing 1..10, seeds, coordinates also as integer pixel positions in unsigned/narrow dtypes; (iii) one splitter object asked to split two different "
+        "layouts in turn; (iv) partition_by_sum over every array of up to 5 (thorough 6) elements from a small alphabet and every part count; non-trivial = uneven populations (max >= 2*min over occupied blocks) or an empty block, or a demanded "
         "rejection; distinct = SHA-1 of the case")
 ASSUMPTIONS = [
     "block membership is known by construction and recomputed exactly (vlib/blocks.py); the region is always inferred (as the classes do)",
